@@ -140,28 +140,28 @@ def subDiv (f : Num → Num → Except Err Num) (unit : Num) (args : List Value)
       let init ← f first second
       foldNum f init more
 
-/-- `typed_comparision!` on numbers -/
+/-- `typed_comparision!` on numbers: every argument is type-checked, also after the pair that decides the result -/
 def cmpNum (op : Num → Num → Bool) : List Value → Except Err Bool
   | [] => .ok true
   | x :: rest => do
     let first ← expectNumber x
-    let rec go (last : Num) : List Value → Except Err Bool
-      | [] => .ok true
+    let rec go (last : Num) (acc : Bool) : List Value → Except Err Bool
+      | [] => .ok acc
       | v :: vs => do
         let cur ← expectNumber v
-        if op last cur then go cur vs else .ok false
-    go first rest
+        go cur (acc && op last cur) vs
+    go first true rest
 
 def cmpBool : List Value → Except Err Bool
   | [] => .ok true
   | x :: rest =>
     match x with
     | .bool first =>
-      let rec go (last : Bool) : List Value → Except Err Bool
-        | [] => .ok true
-        | .bool cur :: vs => if last == cur then go cur vs else .ok false
+      let rec go (last : Bool) (acc : Bool) : List Value → Except Err Bool
+        | [] => .ok acc
+        | .bool cur :: vs => go cur (acc && last == cur) vs
         | _ :: _ => .error .type
-      go first rest
+      go first true rest
     | _ => .error .type
 
 /-- `first_of_order!` -/
